@@ -7,7 +7,7 @@ from vf.monitors.sql import _real_connect
 
 
 def _ro(path):
-    conn = _real_connect(f'file:{path}?mode=ro', uri=True)
+    conn = _real_connect('file:' + __import__('urllib.parse').parse.quote(str(path)) + '?mode=ro', uri=True)
     return conn
 
 
